@@ -43,7 +43,7 @@ def _run_variant(args):
         if overlay is None:
             return variant["id"], "skipped", None, ""
         mod = importlib.import_module(f"sa.props.{prop.lower()}")
-        rep = Report(prop, "quick", quiet=True)
+        rep = Report(prop, "thorough", quiet=True)
         try:
             repo = Repo(root, overlay=overlay)
             mod.run(repo, rep)
